@@ -200,6 +200,7 @@ inductive Ty where
 inductive Op where
   | unpack | pack | itousize | borrow | ret
   | call (name : String)
+  | drop                 -- `tket.guppy.drop` of a droppable value that was replaced
   | other (name : String)
   deriving DecidableEq, Repr, Inhabited
 
@@ -289,6 +290,14 @@ def arrElemTy : Ty → Option Ty
   | .arr t => some t
   | _ => none
 
+/-- executable well-typedness check of a path under a root type; returns the type of the place -/
+def wtCheck : Ty → List Chunk → List Nat → Option Ty
+  | t, [], tail => tyProj t tail
+  | t, c :: cs, tail =>
+    match tyProj t c.projs with
+    | some (.arr te) => wtCheck te cs tail
+    | _ => none
+
 /-- static information per subscript level `j = 1 … m`: the place id of `s_{j-1}` (container), the
     chunk, the type of the container, the wire holding the index -/
 structure Level where
@@ -311,6 +320,22 @@ def mkLevels : Ty → PlaceId → List Chunk → Nat → List Level
 
 def subId (l : Level) (j : Nat) : PlaceId := l.arrId ++ [.sub j]
 
+/-- lowering of `__getitem__(P, i)` on a non-copyable element followed by the re-binding of `P`:
+    lookup of the array place, `itousize`, `borrow`, `dfg[P] = array'`.  Returns the element wire. -/
+def borrowStepW (l : Level) (s : CS) : CS × Nat :=
+  let r1 := dget l.arrTy l.arrId s
+  let r2 := r1.1.addOp .itousize [l.idxWire] 1
+  let r3 := r2.1.addOp .borrow [r1.2, r2.2.headD 0] 2
+  (dset l.arrTy l.arrId (r3.2.headD 0) r3.1, r3.2.tail.headD 0)
+
+/-- lowering of `__setitem__(P, i, tmp)`: lookup of the array place, `itousize`, `return`,
+    `dfg[P] = array'` -/
+def retStepW (l : Level) (tmp : Nat) (s : CS) : CS :=
+  let r1 := dget l.arrTy l.arrId s
+  let r2 := r1.1.addOp .itousize [l.idxWire] 1
+  let r3 := r2.1.addOp .ret [r1.2, r2.2.headD 0, tmp] 1
+  dset l.arrTy l.arrId (r3.2.headD 0) r3.1
+
 /-- `(loadW j, storeW j)` on the compile state, for levels `lv[0 … j-1]`; mirrors `loadStore` with
     the `DFContainer` plumbing made explicit -/
 def loadStoreW (lv : List Level) : Nat → (CS → CS) × (CS → CS)
@@ -321,25 +346,23 @@ def loadStoreW (lv : List Level) : Nat → (CS → CS) × (CS → CS)
     | none => (fun s => { s with bad := true }, fun s => { s with bad := true })
     | some l =>
       (fun s =>
-        -- args of `__getitem__(parent, item)`: visit_PlaceNode(parent), then the item variable
-        let s := ls.1 s
-        let (s, aw) := dget l.arrTy l.arrId s
-        let (s, u) := s.addOp .itousize [l.idxWire] 1
-        let (s, o) := s.addOp .borrow [aw, u.headD 0] 2
+        -- args of `__getitem__(parent, item)`: visit_PlaceNode(parent), then the item variable;
         -- `_update_inout_ports`: parent := returned array (+ its own write-back)
-        let s := dset l.arrTy l.arrId (o.headD 0) s
-        let s := ls.2 s
+        let r := borrowStepW l (ls.1 s)
+        let s := ls.2 r.1
         -- `self.dfg[subscript] = …`
-        dset l.elemTy (subId l (j + 1)) (o.tail.headD 0) s,
+        dset l.elemTy (subId l (j + 1)) r.2 s,
        fun s =>
         -- `self.dfg[value_var] = self.dfg[subscript]` (packed; the tmp variable is never unpacked)
-        let (s, tmp) := dget l.elemTy (subId l (j + 1)) s
-        let s := ls.1 s
-        let (s, aw) := dget l.arrTy l.arrId s
-        let (s, u) := s.addOp .itousize [l.idxWire] 1
-        let (s, o) := s.addOp .ret [aw, u.headD 0, tmp] 1
-        let s := dset l.arrTy l.arrId (o.headD 0) s
+        let r := dget l.elemTy (subId l (j + 1)) s
+        let s := retStepW l r.2 (ls.1 r.1)
         ls.2 s)
+
+/-- place id and type of the innermost container `s_m` (the root variable when there is no subscript) -/
+def lastPlace (t : Ty) (lv : List Level) (m : Nat) : PlaceId × Ty :=
+  match lv[m - 1]? with
+  | none => ([], t)
+  | some l => (subId l m, l.elemTy)
 
 /-- the whole probe `def probe(x: T, i1: int, …) -> None: callee(π)` with `x` borrowed:
     inputs `x = 0`, `i_j = j`; output = the repacked `x` -/
@@ -348,11 +371,9 @@ def emitW (t : Ty) (p : CPath) (callee : String) : Prog :=
   let lv := mkLevels t [] p.chunks 1
   let s : CS := { next := m + 1 }
   let s := dset t [] 0 s
-  let (cid, cty) := match lv.getLast? with
-    | none => (([] : PlaceId), t)
-    | some l => (subId l m, l.elemTy)
-  let pid := cid ++ p.tail.map .proj
-  let pty := (tyProj cty p.tail).getD .q
+  let cp := lastPlace t lv m
+  let pid := cp.1 ++ p.tail.map .proj
+  let pty := (tyProj cp.2 p.tail).getD .q
   let ls := loadStoreW lv m
   -- visit_PlaceNode(π)
   let s := ls.1 s
@@ -365,6 +386,28 @@ def emitW (t : Ty) (p : CPath) (callee : String) : Prog :=
   let (s, out) := dget t [] s
   if s.bad then ⟨m + 1, [⟨.other "bad", [], 0⟩], []⟩ else ⟨m + 1, s.instrs.reverse, [out]⟩
 
+/-- `def probe(x: T, i1: int, …, v: U @owned) -> None: π = v` (`StmtCompiler._assign_place`) for a
+    place `π` that ends in a field whose old value is droppable: the same cascade as `emitW` with the
+    call replaced by binding the place to the input wire `m+1`; the replaced value is dropped at
+    the end of the block.  (Requires a non-empty tail: for `π = s_m` itself `_assign_place` skips
+    the `__getitem__`.) -/
+def emitAssignW (t : Ty) (p : CPath) : Prog :=
+  let m := p.chunks.length
+  let lv := mkLevels t [] p.chunks 1
+  let s : CS := { next := m + 2 }
+  let s := dset t [] 0 s
+  let cp := lastPlace t lv m
+  let pid := cp.1 ++ p.tail.map .proj
+  let pty := (tyProj cp.2 p.tail).getD .q
+  let ls := loadStoreW lv m
+  let s := ls.1 s
+  let old := (s.find pid).getD 4294967295
+  let s := dset pty pid (m + 1) s
+  let s := ls.2 s
+  let (s, out) := dget t [] s
+  let (s, _) := s.addOp .drop [old] 0
+  if s.bad || p.tail.isEmpty then ⟨m + 2, [⟨.other "bad", [], 0⟩], []⟩ else ⟨m + 2, s.instrs.reverse, [out]⟩
+
 /-! ### interpreter of wire-level op lists -/
 
 inductive W where
@@ -373,11 +416,18 @@ inductive W where
   | usize (n : Nat)
   deriving Repr, Inhabited
 
+/-- the tree values on a list of wires (`none` if an index / usize is among them) -/
+def valsOf : List W → Option (List V)
+  | [] => some []
+  | .val v :: r => (valsOf r).map (v :: ·)
+  | _ :: _ => none
+
 def stepW (f : V → V) : Op → List W → M (List W)
   | .unpack, [.val (.tup vs)] => pure (vs.map .val)
-  | .pack, ws => do
-      let vs ← ws.mapM fun | .val v => pure v | _ => throw Err.illTyped
-      pure [.val (.tup vs)]
+  | .pack, ws =>
+      match valsOf ws with
+      | some vs => pure [.val (.tup vs)]
+      | none => throw .illTyped
   | .itousize, [.int i] => pure [.usize i]
   | .borrow, [.val (.arr cs), .usize i] =>
       match cs[i]? with
@@ -388,6 +438,7 @@ def stepW (f : V → V) : Op → List W → M (List W)
       | none => throw .badPath
       | some c => if !c.isHole then throw .notBorrowed else pure [.val (.arr (cs.set i e))]
   | .call _, [.val v] => pure [.val (f v)]
+  | .drop, [.val _] => pure []
   | _, _ => throw .illTyped
 
 def lookupW (env : List W) : List Nat → M (List W)
